@@ -11,6 +11,7 @@ import D42.Model.Eq
 import D42.Model.Rollout
 import D42.Model.Migrate
 import D42.Model.History
+import D42.Model.Format
 import D42.Model.RegexMatch
 import D42.Gen.Migration
 
@@ -139,6 +140,19 @@ def handle (e : Sexp) : Sexp :=
        let env := mkEnv tab
        encExcept encErrs (validate env sub s v [])
      | _, _, _, _ => .atom "BADINPUT")
+  | .list [.atom "vformat", s, v, tab] =>
+    -- validate, then render every error: what each message is made of (kind, the path it names, the printed length)
+    (match decSchema s, decVal v, decRxTab tab with
+     | some s, some v, some tab =>
+       let env := mkEnv tab
+       encExcept (fun (ms : List Msg) => .list (ms.map (fun m =>
+          .list [.atom "msg", .atom m.kind, encPath m.shown, (match m.len with | some n => encNat n | none => .atom "_")])))
+         (do let errs ← validate env false s v []; formatAll errs)
+     | _, _, _ => .atom "BADINPUT")
+  | .list [.atom "vof", s, v, tab] =>
+    (match decSchema s, decVal v, decRxTab tab with
+     | some s, some v, some tab => encExcept encBool (validateOrFail (mkEnv tab) s v)
+     | _, _, _ => .atom "BADINPUT")
   | .list [.atom "gen", s, .list (.atom "draws" :: ds), tab] =>
     (match decSchema s, ds.mapM decDraw, decRxTab tab with
      | some s, some ds, some tab =>
